@@ -16,6 +16,8 @@ type GSender struct {
 	gossip     mesh.GossipData
 	broadcasts map[mesh.PeerName]mesh.GossipData
 	Coalesced  int // number of pending.Merge(new) calls performed
+	NilMerges  int // times a bucket held a nil payload (an earlier pending.Merge(new) returned nil) when the next payload arrived:
+	// mesh calls Merge on that nil interface and panics on the caller's goroutine; the transcription counts it and replaces the bucket
 }
 
 // NewGSender returns an empty sender.
@@ -34,6 +36,11 @@ func (s *GSender) Send(data mesh.GossipData) {
 // Broadcast accumulates under the source name (mesh: gossipSender.Broadcast).
 func (s *GSender) Broadcast(src mesh.PeerName, data mesh.GossipData) {
 	d, found := s.broadcasts[src]
+	if found && d == nil {
+		s.NilMerges++
+		s.broadcasts[src] = data
+		return
+	}
 	if !found {
 		s.broadcasts[src] = data
 	} else {
@@ -56,6 +63,7 @@ type WireMsg struct {
 	Kind string // "gossip" | "broadcast" | "unicast"
 	Src  mesh.PeerName
 	Buf  []byte
+	Dst  mesh.PeerName // unicast only
 }
 
 // Pick takes one piece of pending data (gossip first, as in mesh; broadcasts in source-name order instead of map
